@@ -55,7 +55,9 @@ Init0 ==
      idleUntil |-> NoTime,   \* idle_until deadline, NoTime = idle_forever
      inbox |-> <<>>, msgs |-> <<>>,
      otx |-> <<>>, ocb |-> <<>>, odone |-> <<>>,
-     nreq |-> 0, devs |-> {}]
+     nreq |-> 0, devs |-> {},
+     \* ghosts (no influence on behaviour): sessions started so far (capped), whether an earlier session completed integrity
+     nsess |-> 0, everInteg |-> FALSE]
 
 Addr(a) == Assocs[a].addr
 
@@ -140,7 +142,7 @@ Fail(s, a, task, err) ==
     Cb(TaskError(s, a, task, err), MkFail(s.now, Addr(a), TaskName(task), err))
 
 ReadComplete(s, a, task) ==
-    CASE task.t = "integ" -> [AutoDone(s, a, "integ") EXCEPT !.A[a].integDone = TRUE]
+    CASE task.t = "integ" -> [AutoDone(s, a, "integ") EXCEPT !.A[a].integDone = TRUE, !.everInteg = TRUE]
       [] task.t = "evscan" -> AutoDone(s, a, "evscan")
       [] task.t = "poll" ->
             PollDone(s, a, task.pid)
@@ -369,7 +371,7 @@ ProcMsg(s, m) ==
             LET ps == s.A[m.a].polls
             IN Done([s EXCEPT !.A[m.a].polls = [i \in 1..Len(ps) |-> IF ps[i].id = m.pid THEN [ps[i] EXCEPT !.next = s.now] ELSE ps[i]]],
                     m.id, "ok")
-      [] m.k = "enable" -> IF s.pc = "Down" /\ s.pipe THEN [s EXCEPT !.enabled = TRUE, !.pipe = FALSE, !.pc = "Sched"]
+      [] m.k = "enable" -> IF s.pc = "Down" /\ s.pipe THEN [s EXCEPT !.enabled = TRUE, !.pipe = FALSE, !.pc = "Sched", !.nsess = IF @ < 2 THEN @ + 1 ELSE @]
                            ELSE [s EXCEPT !.enabled = TRUE]
       [] m.k = "disable" -> [s EXCEPT !.enabled = FALSE]
       [] m.k = "remove" ->
@@ -414,6 +416,10 @@ Micro(s) ==
         IN \* a disable while connected ends the session; while idle any message re-runs the scheduler
            IF m.k = "disable" /\ s.pc # "Down" THEN EndSession(s1, "Disabled")
            ELSE IF s1.pc = "Idle" THEN [s1 EXCEPT !.pc = "Sched"]
+           \* DEV LinkStatusTimeoutRearms: run_link_status_task computed its deadline inside the wait loop, so every
+           \* processed message restarted the response timeout of the link status check
+           ELSE IF s1.pc = "Await" /\ s1.cur.task.t = "link" /\ "LinkStatusTimeoutRearms" \in DEVM
+                THEN [s1 EXCEPT !.cur.deadline = s1.now + Assocs[s1.cur.a].rt, !.devs = @ \cup {"LinkStatusTimeoutRearms"}]
            ELSE s1
     ELSE CASE s.pc = "Sched" -> Schedule(s)
            [] s.pc = "Await" -> IF s.inbox # <<>> THEN AwaitRx(s) ELSE AwaitTimeout(s)
@@ -436,7 +442,7 @@ Advance(s, target) ==
 
 \* stimuli: [k: conn | cut | adv(dt) | enable | disable | req(m) | rx(f)]
 Inject(s, in) ==
-    CASE in.k = "conn" -> IF s.pc = "Down" /\ s.enabled THEN [s EXCEPT !.pc = "Sched"]
+    CASE in.k = "conn" -> IF s.pc = "Down" /\ s.enabled THEN [s EXCEPT !.pc = "Sched", !.nsess = IF @ < 2 THEN @ + 1 ELSE @]
                           ELSE IF s.pc = "Down" THEN [s EXCEPT !.pipe = TRUE] ELSE s
       [] in.k = "cut"  -> IF s.pc \in {"Down", "Dead"} THEN [s EXCEPT !.pipe = FALSE] ELSE EndSession(s, "Link")
       [] in.k = "adv"  -> s
